@@ -284,6 +284,59 @@ def _pick_file_kind(k: int) -> int:
     return 3
 
 
+def fault_at_jth_node(tier_name):
+    """E3 cells: the real invert-boolean-check transformer, instrumented to raise when its visit counter equals a
+    SYMBOLIC j, runs natively through the real LibcstTransformerPipeline on a 4-site module.  z3 enumerates the
+    cells of j (one per node visited, plus 'never reached'): in every cell either the run completes (file rewritten,
+    one changeset, no failure) or the file is untouched, listed failed and its finding unfixed; nothing escapes."""
+    from core_codemods.invert_boolean_check import InvertedBooleanCheckTransformer
+    from vlib import symint
+
+    SRC = "a, b = 1, 2\nr1 = not a == b\nr2 = not a < b\ndef f():\n    return not a != b\nr3 = not a >= b\n"
+    space = symint.Space(["j"])
+
+    def run(w):
+        j = space.var("j")
+
+        class Faulty(InvertedBooleanCheckTransformer):
+            count = 0
+
+            def on_visit(self, node):
+                Faulty.count += 1
+                if j == Faulty.count:
+                    raise Boom()
+                return super().on_visit(node)
+
+        fp = FakePath(SRC.encode())
+        results = None
+        fc = skel.FileContext(Path("/d"), fp, [], [], results)
+        exc = None
+        try:
+            cs = LibcstTransformerPipeline(Faulty).apply(skel.Ctx(False), fc, results)
+        except Exception as e:  # noqa
+            return "exception escaped apply(): %s" % type(e).__name__
+        reached = 1 <= w["j"] <= Faulty.count or (w["j"] >= 1 and fc.failures)
+        if fc.failures:
+            if fp.writes or cs is not None or [str(p) for p in fc.failures] != ["/d/f.py"]:
+                return "j=%d: failed file was written or reported changed" % w["j"]
+            return None
+        if cs is None or len(fp.writes) != 1 or b"not" in fp.content:
+            return "j=%d: no fault reached, but the file was not completely rewritten" % w["j"]
+        return None
+
+    done, runs, queries, fixpoint = symint.explore(space, run, max_rounds=200)
+    bad = {k: v for k, v in done.items() if v}
+    rec = {"name": "fault:at-the-j-th-visited-node", "engine": "E3-cells+z3", "evaluations": runs, "distinct_nontrivial": len(done), "z3_checks": queries,
+           "sample": {"cells": len(done), "fixpoint": fixpoint, "failing_cells": len(bad)}}
+    if bad:
+        rec.update(verdict="violation", detail=sorted(bad.values())[0], replay="")
+    elif not fixpoint:
+        rec.update(verdict="inconclusive", detail="cell refinement did not reach a fixpoint")
+    else:
+        rec["verdict"] = "discharged"
+    return [rec]
+
+
 def planted_swallowed_failure(kind: int, nf: int) -> bool:
     """Self-test: a pipeline that fails without recording the failure must be refuted.
     pre: 1 <= kind < 4 and 0 <= nf <= 1
@@ -327,6 +380,7 @@ SPEC = {
         "FileContext.add_failure / add_unfixed_findings / get_all_findings",
         "BaseCodemod.apply / _apply / _process_file, FindAndFixCodemod.get_files_to_analyze",
         "codemodder.codemodder.apply_codemods (two codemods in sequence)",
+        "InvertedBooleanCheckTransformer run through LibcstTransformerPipeline with a fault at a symbolic visit index (E3 cells)",
         "CodemodExecutionContext.process_results / add_changesets / add_failures / add_unfixed_findings / get_*",
     ],
     "bounds": {
@@ -339,7 +393,8 @@ SPEC = {
         "XML: expat replaced by a SAX event driver, so 'vanished' means the file disappears between parsing and the pipeline's second read",
     ],
     "stubs": ["file (FakePath)", "ThreadPoolExecutor (SerialExecutor)", "transformers", "logger", "expat", "TemporaryFile", "CodemodExecutionContext constructed for real with no registry/providers/repo manager"],
-    "outside": ["NUL bytes and other decoder details", "process exit status (C20)", "faults at the j-th visited node inside a real transformer"],
+    "outside": ["NUL bytes and other decoder details", "process exit status (C20)", "faults inside transformers other than invert-boolean-check"],
+    "drivers": [fault_at_jth_node],
     "xh": [
         Xh("fault_libcst", 150, 300),
         Xh("fault_regex", 120, 300),
